@@ -746,7 +746,7 @@ func (e *env) genPQTime(p *pqCase, n int) gcol {
 			m = 1_000_000
 		}
 		g.cells[j] = gcell{i: big.NewInt(vh.Pick(r, []int64{math.MaxInt64/m + 1, math.MaxInt64, math.MinInt64, 1609459200000000000}))}
-		p.timeOvf[j] = true
+		p.timeOvf[j], p.timeOK[j] = true, true
 		p.note += "time-overflow "
 	}
 	return g
